@@ -8,7 +8,8 @@ REGISTRATION = {
                  "correspondence against the real gin handlers on a scratch store",
     "category": "proof",
     "text": "Kernel-checked theorems over a Lean model of the model store (blob files keyed by digest, every other "
-            "file of the blobs directory by name class, manifests readable/corrupt) and of blob upload, create (FROM / "
+            "file of the blobs directory by name class, manifests readable/corrupt) and of blob upload, pull (download+verify "
+            "loop with cache hits, against an in-memory registry whose blobs are honest or corrupted), create (FROM / "
             "files, auto-detected template+params layers, TEMPLATE/SYSTEM/LICENSE/PARAMETERS overrides in the real "
             "drop-then-store order), copy, delete and the startup sequence (fixBlobs, corrupt-manifest gate, "
             "PruneLayers per file-name class), for all stores, requests and Go-map iteration orders: the completeness "
@@ -25,7 +26,8 @@ REGISTRATION = {
             "SHA-256; theorems: any collision-free hash, HashInj), GGUF decoding and template.Named (metadata and "
             "auto-detected template/params bytes per pool file), template validity. Guards that remain on the "
             "repaired tree: files planted under a blob name hold that content (LitterOk/LegacyOk, non-API faults "
-            "only). Outside the model: pull, MESSAGES, adapters/projectors, safetensors, quantize, directories "
+            "only). Registry manifests are assumed truthful about SIZES (PullOk; PullModel never checks them). Outside the model: the "
+            "pull protocol itself (C03), MESSAGES, adapters/projectors, safetensors, quantize, directories "
             "inside blobs/, case-insensitive file systems. Tie 1 (decide over facts regenerated from the source): the "
             "digest pattern of GetBlobsPath and the startup sequence of Serve, which the driver transcribes.",
 }
@@ -47,6 +49,7 @@ THEOREMS = [
     "OllamaVerif.C04.prune_exact_fixed",
     "OllamaVerif.C04.prune_skipped",
     "OllamaVerif.C04.prune_classes_witness",
+    "OllamaVerif.C04.pull_witness",
     "OllamaVerif.C04.no_new_case_twins_fixed",
     "OllamaVerif.C04.no_case_twins_fixed",
     "OllamaVerif.C04.reachable_no_twins_fixed",
